@@ -425,6 +425,13 @@ def run(prog, rep, tier):
              'the other end (same entry for a single site)')
     check_alias_ends(prog, rep, ['tenpy/networks/mpo.py', 'tenpy/networks/mps.py',
                                  'tenpy/networks/terms.py'])
+    rep.rule('MPO-apply-form', 'site tensors that go straight into a contraction are fetched with an '
+             'explicit canonical form')
+    if check_apply_form(prog, rep) < 8:
+        raise AnalysisError('MPO-apply-form: fewer than 8 contracted get_B results in mpo.py')
+    rep.rule('HCFLAG-overlap-table', 'decision table of MPO.overlap over the two explicit_plus_hc '
+             'flags: the one-sided cases differ by the conjugation of the hc term')
+    check_overlap_table(prog, rep)
     return rep.finish(
         level='other',
         explanation='Flag exhaustiveness over %d W-using MPO methods, flag forwarding of derived '
@@ -721,3 +728,98 @@ def check_period_mixed(prog, rep):
                                   'the MPO' % (unparse(c), nm, unparse(u['local'][0]), nm,
                                                unparse(shadow[nm].value)[:40]), c.lineno)
     return n
+
+
+# ------------------------------------------------------------------ MPO-apply-form
+def check_apply_form(prog, rep):
+    """MPO-apply-form: the MPO application / environment code contracts site tensors of a state
+    assuming a definite canonical form (the singular values sit where that form puts them). A
+    tensor fetched with `get_B(i, form=None)` is whatever is stored ('A' on one site, 'B' on the
+    next after a variational compression): contracting it drops the Schmidt values between the two
+    parts. Every get_B call whose result goes straight into a contraction therefore requests an
+    explicit form (argument resolved against the signature of MPS.get_B)."""
+    from ..core import bound_args
+    ct = prog.classtable()
+    getB = ct.get('MPS').methods['get_B']
+    m = prog.module('tenpy/networks/mpo.py')
+    n = 0
+    for q, f in m.functions.items():
+        for c in ast.walk(f):
+            if not (isinstance(c, ast.Call) and (call_name(c) or '').endswith('tensordot')):
+                continue
+            for a in c.args[:2]:
+                inner = a
+                while isinstance(inner, ast.Call) and isinstance(inner.func, ast.Attribute) and \
+                        inner.func.attr in ('conj', 'astype', 'copy'):
+                    inner = inner.func.value
+                if not (isinstance(inner, ast.Call) and isinstance(inner.func, ast.Attribute) and
+                        inner.func.attr == 'get_B'):
+                    continue
+                n += 1
+                form = bound_args(inner, getB).get('form')
+                bad = isinstance(form, ast.Constant) and form.value is None
+                rep.instance('MPO-apply-form', {'function': q, 'call': unparse(inner)[:50],
+                                                'explicit_form': not bad})
+                if bad:
+                    rep.violation('MPO-apply-form', m, q, 'contracts-stored-form',
+                                  '`%s` is contracted as it is stored (form=None): for a state in '
+                                  'mixed canonical form the singular values between the A and the B '
+                                  'part are lost, the operator is applied to another state'
+                                  % unparse(inner)[:50], inner.lineno)
+    return n
+
+
+# ------------------------------------------------------------------ HCFLAG-overlap-table
+def check_overlap_table(prog, rep):
+    """HCFLAG-overlap-table: decision table of MPO.overlap over (self.explicit_plus_hc,
+    other.explicit_plus_hc). <A + hc(A)|B> = <A|B> + <hc(A)|B>, but <A|B + hc(B)> = <A|B> +
+    conj(<hc(A)|B>) (the overlap is anti-linear in its first argument): the case "only `other`
+    carries the flag" must conjugate the hc term, the case "only `self`" must not, so the two cases
+    cannot share one expression."""
+    m = prog.module('tenpy/networks/mpo.py')
+    f = m.func('MPO.overlap')
+    chain = None
+    for st in f.body:
+        if isinstance(st, ast.If) and 'explicit_plus_hc' in unparse(st.test):
+            chain = st
+    if chain is None:
+        raise AnalysisError('MPO.overlap: if-chain over explicit_plus_hc not found')
+
+    def ev(e, env):
+        if isinstance(e, ast.BoolOp):
+            vals = [ev(v, env) for v in e.values]
+            return all(vals) if isinstance(e.op, ast.And) else any(vals)
+        if isinstance(e, ast.UnaryOp) and isinstance(e.op, ast.Not):
+            return not ev(e.operand, env)
+        t = unparse(e)
+        if t in env:
+            return env[t]
+        raise AnalysisError('MPO.overlap: condition `%s` not over the two flags' % t)
+
+    def pick(env):
+        st = chain
+        while True:
+            if ev(st.test, env):
+                body = st.body
+                break
+            if len(st.orelse) == 1 and isinstance(st.orelse[0], ast.If):
+                st = st.orelse[0]
+                continue
+            body = st.orelse
+            break
+        exprs = [unparse(a.value) for a in body if isinstance(a, ast.Assign) and
+                 unparse(a.targets[0]) == 'ov']
+        return exprs[-1] if exprs else None
+    table = {}
+    for s_ in (True, False):
+        for o_ in (True, False):
+            table[(s_, o_)] = pick({'self.explicit_plus_hc': s_, 'other.explicit_plus_hc': o_})
+    rep.instance('HCFLAG-overlap-table', {'(self,other)->ov': {str(k): v for k, v in table.items()}})
+    so, os_ = table[(True, False)], table[(False, True)]
+    if so is None or os_ is None or so == os_ or ('conj' in (so or '')) or ('conj' not in (os_ or '')):
+        rep.violation('HCFLAG-overlap-table', m, 'MPO.overlap', 'one-sided-cases',
+                      'only self has explicit_plus_hc: ov = `%s`; only other: ov = `%s`. The '
+                      'overlap is anti-linear in self: the hc term enters unconjugated in the first '
+                      'case and conjugated in the second; <A|B> == conj(<B|A>) fails otherwise'
+                      % (so, os_), chain.lineno)
+    return 1
